@@ -13,7 +13,7 @@ pub const HOSTS: &[&str] = &[
     "x.com", "bar.foo.com", "ad.foo.com", "track.net", "net.com", "com.net", "example.co.uk",
     "localhost", "a1.x.com",
 ];
-pub const DOMAINS: &[&str] = &["a.com", "b.com", "sub.a.com", "example.com", "foo.com", "x.net", "site.org"];
+pub const DOMAINS: &[&str] = &["a.com", "b.com", "sub.a.com", "example.com", "foo.com", "x.net", "site.org", "www.a.com"];
 /// what a `domain=` option may name besides DOMAINS: bare public suffixes (every initiator under them)
 pub const DOMAIN_SUFFIXES: &[&str] = &["com", "org", "net"];
 pub const TYPES: &[&str] = &[
